@@ -185,6 +185,8 @@ def install(w):
         "iterable_v": lambda it, v: VBool(ITERABLE(dyn_t(it, v))),
         "vlen": lambda it, v: VInt(sym.v_len(dyn_t(it, v))),
         "is_list": lambda it, v: VBool(sym.tag(dyn_t(it, v)) == T["list"]),
+        "is_dict": lambda it, v: VBool(sym.tag(dyn_t(it, v)) == T["dict"]),
+        "vitem": lambda it, v, j: VDyn(sym.v_item(dyn_t(it, v), it.as_int(j, None))),
     })
 
     # ---- iteration over a dynamic value ----------------------------------------------------------
